@@ -217,14 +217,18 @@ def strip(o):
     return o
 
 
-def loose_eq(expected, answer):
-    """equality where a model answer {"err":"unmodelled"} matches anything"""
+def loose_eq(expected, answer, hits=None):
+    """equality where a model answer {"err":"unmodelled"} stands for "outside the model" (C08 cast boundary:
+    int()/date spellings the C08 model does not cover).  Every such match is RECORDED in `hits` as the
+    implementation's value at that place; the caller decides whether it is acceptable."""
     if isinstance(answer, dict) and answer.get("err") == "unmodelled":
+        if hits is not None:
+            hits.append(expected)
         return True
     if isinstance(expected, dict) and isinstance(answer, dict):
-        return set(expected) == set(answer) and all(loose_eq(expected[k], answer[k]) for k in expected)
+        return set(expected) == set(answer) and all(loose_eq(expected[k], answer[k], hits) for k in expected)
     if isinstance(expected, list) and isinstance(answer, list):
-        return len(expected) == len(answer) and all(loose_eq(a, b) for a, b in zip(expected, answer))
+        return len(expected) == len(answer) and all(loose_eq(a, b, hits) for a, b in zip(expected, answer))
     return expected == answer
 
 
@@ -433,17 +437,21 @@ def db_fixed():
         iphen = [F("i-id", ":integer"), F("x", ":string")]
         S = [{"name": cps("item"), "fields": item}, {"name": cps("item-set"), "fields": iset},
              {"name": cps("item-phenomenon"), "fields": iphen},
-             {"name": cps("set"), "fields": [F("s-id", ":integer"), F("x", ":string")]}]   # no source file at all
+             {"name": cps("set"), "fields": [F("s-id", ":integer"), F("x", ":string")]},   # no source file at all
+             {"name": cps("q"), "fields": [F("c0", ":string")]}]                           # one column, blank cells
         files = [{"name": cps("item"), "tx": {"recs": rows, "mtime": 5}, "gz": None},
                  {"name": cps("item-set"), "tx": None,
                   "gz": {"recs": [R("0", "0", "0"), R("1", "-1", "-1"), R(None, None, None)], "mtime": 5}},
                  {"name": cps("item-phenomenon"), "tx": {"recs": [R("9", "stale")], "mtime": 4},
-                  "gz": {"recs": [R("0", "0"), R("2", None)], "mtime": 9}}]
+                  "gz": {"recs": [R("0", "0"), R("2", None)], "mtime": 9}},
+                 {"name": cps("q"), "tx": {"recs": [R(None), R(" "), R(None), R("x"), R(None)], "mtime": 5}, "gz": None}]
         derived = [{"name": cps("item-set"), "fields": [iset[2], iset[1], iset[0]]},
                    {"name": cps("item"), "fields": [item[2], F("y", ":integer"), item[0]] + item[3:]},
                    {"name": cps("item-phenomenon"), "fields": [iphen[1], iphen[0], F("c0", ":string")]},
-                   {"name": cps("set"), "fields": [F("x", ":string")]}]
-        reordered = [{"name": cps("set"), "fields": [F("x", ":string"), F("s-id", ":integer")]},
+                   {"name": cps("set"), "fields": [F("x", ":string")]},
+                   {"name": cps("q"), "fields": [F("c0", ":string")]}]
+        reordered = [{"name": cps("q"), "fields": [F("c0", ":string")]},
+                     {"name": cps("set"), "fields": [F("x", ":string"), F("s-id", ":integer")]},
                      {"name": cps("item-phenomenon"), "fields": [iphen[1], iphen[0]]},
                      {"name": cps("item"), "fields": list(reversed(item))},
                      {"name": cps("item-set"), "fields": [iset[1], iset[2], iset[0]]}]     # reorder only
@@ -456,7 +464,7 @@ def db_fixed():
         for autocast in ((True,) if with_float else (False, True)):
             for schema in (None, S, derived, reordered):
                 T = schema if schema is not None else S
-                for names in (None, ["item"], ["item-set", "set"], ["item-phenomenon", "item"]):
+                for names in (None, ["item", "q"], ["item-set", "set"], ["item-phenomenon", "item"]):
                     for dst in ("inplace", "new", "existing"):
                         for gz in (False, True):
                             yield {"kind": "db", "op": "db", "src_schema": S, "src_files": files,
@@ -464,7 +472,7 @@ def db_fixed():
                                    "dst_files": None if dst == "inplace" else [] if dst == "new" else stale,
                                    "names": None if names is None else [cps(n) for n in names],
                                    "names_as": "list" if gz else "iter", "schema": schema, "gzip": gz,
-                                   "watch": [cps("item"), cps("item-phenomenon"), cps("item-set"), cps("set")],
+                                   "watch": [cps("item"), cps("item-phenomenon"), cps("item-set"), cps("q"), cps("set")],
                                    "sel": {uncps(t["name"]): [t["fields"][-1]["name"], t["fields"][0]["name"]] for t in T},
                                    "stream": "fixed"}
 
@@ -500,6 +508,8 @@ def gen_db(rng):
         names = rng.sample(tnames, k)
         if rng.random() < 0.05:
             names.insert(rng.randrange(len(names) + 1), cps("nosuch"))
+        if names and rng.random() < 0.12:
+            names.insert(rng.randrange(len(names) + 1), rng.choice(names))      # a relation named twice
     r = rng.random()
     if r < 0.4:
         dst = "inplace"
@@ -683,6 +693,27 @@ def cr_hists():
                    "sel": [cps("i-comment"), cps("i-input")], "stream": "cr"}
 
 
+
+def single_col_hists():
+    """single-column relations whose records are empty or blank: the stored line is empty (or one space)"""
+    for dt, vals in ((":string", [None, {"str": cps(" ")}, {"str": cps("x")}, {"str": cps("\t")}]),
+                     (":integer", [None, {"int": "0"}, {"int": "-1"}]),
+                     (":date", [None, {"date": [1970, 1, 1, 0, 0, 0]}])):
+        fields = [{"name": cps("x" if dt != ":integer" else "i-wf"), "dt": dt}]
+        recs_all = [[x] for x in vals]
+        for gz in (False, True):
+            for first in ([[None]], [[None], [None]], recs_all, [[None]] + recs_all + [[None]]):
+                ops = [{"k": "write", "recs": first, "append": False, "gzip": gz, "schemafile": False},
+                       {"k": "write", "recs": [[None]], "append": True, "gzip": False, "schemafile": False},
+                       {"k": "write", "recs": recs_all, "append": True, "gzip": False, "schemafile": True},
+                       {"k": "write", "recs": [[None], [None]], "append": False, "gzip": not gz, "schemafile": False}]
+                start = {"tx": None, "gz": None}
+                start["gz" if gz else "tx"] = {"recs": [[None], [cps(" ")] if dt == ":string" else [None], [None]],
+                                               "mtime": 5}
+                yield {"kind": "hist", "op": "hist", "rel": "item", "fields": fields, "start": start, "ops": ops,
+                       "sel": [fields[0]["name"], fields[0]["name"]], "stream": "single_column"}
+
+
 def gen_hist_cr(rng):
     nf = rng.choice([1, 2, 3])
     fields = [{"name": cps("c%d" % i), "dt": ":string"} for i in range(nf)]
@@ -747,6 +778,13 @@ class C09(Check):
         "remake by name on typed values is `remakeV`); cells of planted files are castable in their column and "
         "spelled canonically (str(int), repr(float), D-mon-YYYY[ HH:MM:SS]) so that 'preserved' means the same text "
         "for both kinds of source; cases with a :float column are decided by the direct oracle only",
+        "names with a relation repeated (12% of sub-lists): out of place and in place without a new schema the "
+        "oracle demands the usual result; in place under a new schema the second pass remakes the file the first "
+        "pass rewrote (observed on the code: columns end up swapped, or TSDBError with an autocast source) - the "
+        "oracle makes no record claim there, the model follows the code, writeDb_preserves excludes it",
+        "a model answer 'unmodelled' (C08 cast boundary) is accepted only where the implementation raised too or "
+        "for cast-type reads of foreign stale files left by an aborted write_database; counted in the evidence "
+        "(model_answers_unmodelled), as are the float-column cases that get no model request",
         "'preserves every record' is read modulo the documented replacement of an empty cell by Field.default "
         "(-1 for :integer, coded attributes) that tsdb.join applies on every write",
     ]
@@ -831,8 +869,19 @@ class C09(Check):
         return lines
 
     root = None
+    unmodelled = {}
+    no_request = {}
+
+    def extra_evidence(self):
+        return {"model_answers_unmodelled": dict(self.unmodelled),
+                "cases_without_model_request": dict(self.no_request),
+                "unmodelled_rule": "a model answer 'unmodelled' (C08 cast boundary) is accepted only where the "
+                                   "implementation raised too, or for cast-type reads of foreign stale files left by a "
+                                   "write_database that an unknown relation name aborted; anywhere else it is a disagreement"}
 
     def setup(self):
+        self.unmodelled = {}
+        self.no_request = {}
         self.root = tempfile.mkdtemp(dir="/var/tmp", prefix="c09-")
 
     def teardown(self):
@@ -849,6 +898,7 @@ class C09(Check):
     def cases(self, rng, tier, n):
         yield from exhaustive_hists(3 if tier == "quick" else 4)
         yield from cr_hists()
+        yield from single_col_hists()
         yield from db_fixed()
         yield from schema_rt_fixed()
         yield from schema_parse_fixed()
@@ -870,6 +920,7 @@ class C09(Check):
         if "hist" in kinds:
             yield from exhaustive_hists(3)
             yield from cr_hists()
+            yield from single_col_hists()
         if "db" in kinds:
             yield from db_fixed()
         if kinds & {"schema_rt", "schema_parse", "db"}:
@@ -1022,6 +1073,7 @@ class C09(Check):
             return {"op": "schema_parse", "text": case["text"]}
         sj = model_schema
         if any(f["dt"] == ":float" for sc in (case["src_schema"], case["schema"] or []) for t in sc for f in t["fields"]):
+            self.no_request["db_with_float_column"] = self.no_request.get("db_with_float_column", 0) + 1
             return None                       # float columns: direct oracle only
         return {"op": "db", "src_schema": sj(case["src_schema"]), "src_files": case["src_files"],
                 "src_autocast": bool(case.get("src_autocast", False)),
@@ -1034,7 +1086,18 @@ class C09(Check):
         return strip(impl_res)
 
     def model_compare(self, case, expected, answer):
-        if loose_eq(expected, answer):
+        hits = []
+        if loose_eq(expected, answer, hits):
+            # the model declined to answer somewhere.  Acceptable (and counted) only where the implementation
+            # raised as well, or in the documented class: cast-type reads of foreign stale files that a
+            # write_database aborted by an unknown relation name left behind.
+            aborted = case["kind"] == "db" and isinstance(expected, dict) and expected.get("res") != "ok"
+            for h in hits:
+                impl_err = isinstance(h, dict) and "err" in h
+                key = ("impl_error" if impl_err else "impl_ok_aborted_db" if aborted else "impl_ok")
+                self.unmodelled[key] = self.unmodelled.get(key, 0) + 1
+                if not impl_err and not aborted:
+                    return {"unmodelled_where_implementation_succeeded": h, "model": answer}
             return None
         if isinstance(expected, list) and isinstance(answer, list) and len(expected) == len(answer):
             for i, (a, b) in enumerate(zip(expected, answer)):
@@ -1112,6 +1175,8 @@ class C09(Check):
             inc("db.schema:" + ("none" if case["schema"] is None else "same" if case["schema"] == case["src_schema"]
                                 else "derived"))
             inc("db.names:" + ("none" if case["names"] is None else "sublist:" + case.get("names_as", "list")))
+            if case["names"] is not None and len({tuple(x) for x in case["names"]}) < len(case["names"]):
+                inc("db.names_repeated:" + case["dst"] + (":schema" if case["schema"] is not None else ""))
             inc("db.gzip:%s" % case["gzip"])
             inc("db.src_autocast:%s" % bool(case.get("src_autocast")))
             if any(f["dt"] == ":float" for t in case["src_schema"] for f in t["fields"]):
@@ -1332,6 +1397,11 @@ def oracle_db(case, res):
             fail("a name outside the destination schema did not raise KeyError", res["res"])
         return fails
     if res["res"] != "ok":
+        if case["dst"] == "inplace" and case["schema"] is not None and len(set(names)) < len(names):
+            # documented exclusion (see below): the second pass over a relation named twice reads the file the
+            # first pass rewrote under the new schema, with the old fields - with an autocast source the width
+            # check may then raise.  The model follows the code; no claim is made.
+            return fails
         fail("write_database raised on a valid request", res["res"])
         return fails
     # schema text round trip
@@ -1373,7 +1443,13 @@ def oracle_db(case, res):
         ok = isinstance(got, dict) and "ok" in got and len(got["ok"]) == len(rows) and all(
             len(g) == len(w) and all(("" if c is None else uncps(c)) in opts for c, opts in zip(g, w))
             for g, w in zip(got["ok"], rows))
-        if not ok:
+        if not ok and names.count(n) > 1 and case["dst"] == "inplace" and case["schema"] is not None:
+            # documented exclusion: an in-place call under a new schema that names a relation twice remakes,
+            # the second time, the file it has just rewritten (the model follows the code; see writeDb_preserves)
+            ok = isinstance(got, dict) and "ok" in got
+            if not ok:
+                continue
+        elif not ok:
             fail("a written relation does not hold the source records matched by column name",
                  {"relation": n, "want": [[sorted(o_) for o_ in r] for r in rows], "got": got})
             continue
